@@ -248,6 +248,11 @@ func hChanges(store *server.Store, dsm *server.DsManager, op server.VerifOp, tok
 		oo.Next = 0 // the reverse reader omits the continuation when it reached position 0
 	} else {
 		oo.Next = web.VerifDecodeSince(tok)
+		if op.Reverse && oo.Next == 0 {
+			// position 0 means "from the newest" to the reverse reader: a client following this token would start over for ever
+			oo.Err = "the reverse reader handed out a continuation token for position 0"
+			return
+		}
 	}
 	if op.SinceStr != "" {
 		oo.NextStr = web.VerifDecodeSinceStr(tok)
